@@ -63,8 +63,16 @@ pub fn gen_case(rng: &mut Rng, idx: u64, allow_raw: bool) -> RxCase {
         }
         _ => {
             let words = ["ab", "c", "abc", "\u{e9}", "x y", "de", "a", "\u{65e5}\u{672c}", "b"];
-            let n = 2 + rng.below(4);
-            let chunks: Vec<String> = (0..n).map(|_| rng.pick(&words).to_string()).collect();
+            // half of the sources are long repetitive strings over 2-3 symbols: those exercise the
+            // clone / suffix-link paths of the suffix automaton
+            let chunks: Vec<String> = if rng.chance(1, 2) {
+                let syms: &[&str] = if rng.chance(1, 2) { &["a", "b"] } else { &["a", "b", "c"] };
+                let n = 4 + rng.below(10);
+                (0..n).map(|_| rng.pick(syms).to_string()).collect()
+            } else {
+                let n = 2 + rng.below(4);
+                (0..n).map(|_| rng.pick(&words).to_string()).collect()
+            };
             let rx = substring_rx(&chunks);
             let (text, entry) = match rng.below(3) {
                 0 => (format!("start: T\nT: %regex {}\n", json!({"substring_chunks": chunks})), "substring_chunks"),
